@@ -27,6 +27,19 @@ def run(tier, seed):
                 exp = [[sum((blk[n - i] * blk[n - j] for n in range(m, L)), 0) for i in range(m + 1)] for j in range(m + 1)]
                 return len(M) == m + 1 and all(same(M[j][i], exp[j][i]) for i in range(m + 1) for j in range(m + 1)), "lag_matrix"
             R.guard("lag_matrix-is-the-plain-table", {"L": L, "max_lag": ml}, lm)
+        # exact rational blocks with zero samples (a symbolic sample is never zero)
+        zb = [F(v) for v in (3, 1, 0, 2, -1, 0, 4, 1, 2, 0, 1, -2)][:L + 4]
+        for ml in range(0, len(zb)):
+            def acz():
+                r = acorr(zb, ml)
+                exp = [sum(zb[n] * zb[n + t] for n in range(len(zb) - t)) for t in range(ml + 1)]
+                return list(r) == exp, "acorr(%r, %d) = %r, defining sums %r" % ([str(v) for v in zb], ml, r, exp)
+            R.guard("acorr-is-the-plain-sum", {"block": "with zeros", "len": len(zb), "max_lag": ml}, acz)
+            def lmz():
+                M = lag_matrix(zb, ml)
+                exp = [[sum(zb[n - i] * zb[n - j] for n in range(ml, len(zb))) for i in range(ml + 1)] for j in range(ml + 1)]
+                return [list(r) for r in M] == exp, "lag_matrix(%r, %d) = %r, defining sums %r" % ([str(v) for v in zb], ml, M, exp)
+            R.guard("lag_matrix-is-the-plain-table", {"block": "with zeros", "len": len(zb), "max_lag": ml}, lmz)
         R.guard("lag_matrix-order>=len-refused", {"L": L}, lambda: ((lambda: (_ for _ in ()).throw(Fail()))() if False else _raises(lambda: lag_matrix(blk, L), "ValueError"), "lag_matrix(blk, len(blk)) must raise ValueError"))
         def tp():
             T = toeplitz(blk)
